@@ -17,7 +17,8 @@ MANIFEST = {
                  "over every finite edit history) + vm_compute correspondence of the model with the implementation on "
                  "random edit histories + independent list-of-pairs / Fraction oracle",
     "level_text": "Machine-checked theorems (C17_constructor, C17_append, C17_insert, C17_delete, C17_setitem, C17_units_names, "
-                  "C17_source_unchanged, C17_history, C17_aggregates, closed under the global context) about a hand-written "
+                  "C17_source_unchanged, C17_step, C17_history, C17_aggregates, C17_name_roundtrip, closed under the global context; "
+                  "C17_aggregates_R over the reals) about a hand-written "
                   "Gallina model of ExperimentalValueArray's edit methods in which elements are heap objects shared between "
                   "the source array and the result, exactly as numpy object arrays share references. The model is run against "
                   "the implementation on random edit histories (every operand kind, every valid and some invalid indices, "
